@@ -1,5 +1,6 @@
 #!/bin/bash
 # tools/mut_all.sh  -- runs the in-house mutation catalogue (seeded_own/*.sh) against the checks expected to catch each.
+# benign_* entries are behaviour-preserving variants: every check must stay HELD on them.
 cd "$(dirname "$0")/.."
 while read -r f cs; do
   echo "######## $f -> $cs"
@@ -20,4 +21,10 @@ m12_todict_falsy C12
 m13_narrow_range C17 C05
 m14_fp16_astype C05 C06
 m15_sig_input_rewire C02
+m16_pad8 C16
+m17_nibble C05
+m18_fcaxis C04
+m19_validator_pop_get C18
+benign_refactor_names C10 C16
+benign_no_dq_q_elimination C01 C02 C03 C04 C07 C19
 L
